@@ -131,6 +131,8 @@ class MultiMarker(BaseMarker):
                 common_markers = [
                     marker for marker in self.markers if marker in shared_markers
                 ]
+                if unique_union.is_any():
+                    return MultiMarker.of(*common_markers)
                 return unique_union & MultiMarker(*common_markers)
 
         return None
